@@ -156,7 +156,7 @@ class Check(BaseCheck):
         for si, (name, v, t) in enumerate(seeds):
             for seq in seqs:
                 k += 1
-                if self.quick and (k % len(seeds)) != si % len(seeds) and len(seq) > 1:
+                if self.quick and (k % len(seeds)) != si % len(seeds) and len(seq) > 1 and not (len(seq) == 2 and "free" in name):
                     continue     # quick tier: spread the longer sequences over the seeds
                 case = dict(kind="tri", v=v, t=t, ops=seq, name=name, pres=gen.PRES[(si + len(seq)) % len(gen.PRES)])
                 gen.use(case)
